@@ -870,6 +870,37 @@ def switch_edges_(b, sw):
     return {int(v): tg for v, tg in t[2]}, t[3]
 
 
+CASE_FOLDING = ("eq_ignore_ascii_case", "to_lowercase", "to_uppercase", "to_ascii_lowercase", "to_ascii_uppercase", "make_ascii_lowercase",
+                "make_ascii_uppercase", "eq_ignore_case", "unicase")
+
+
+def r15(ctx, facts):
+    """a CQL name that reaches the driver is already in its exact form (a quoted `"V"` and `v` are two different columns): the
+    generated code and the runtime helpers it calls compare names exactly. A case-folding comparison makes the ordered flavour
+    accept another column in the declared position and swap two values silently (seed C16-k)."""
+    r = ctx.rule("R15", "column / field names are compared exactly: no case folding in the generated (de)serializers nor in the _macro_internal helpers they call", floor=1)
+    n = 0
+    bad = []
+    core = ctx.facts("default")
+    helpers = [hb for hb in core.bodies.mentioning("_macro_internal") if "scylla_cql_core::_macro_internal::" in hb.path and "::promoted[" not in hb.path]
+    if len(helpers) < 10:
+        raise AnchorLost("only %d bodies under scylla_cql_core::_macro_internal found" % len(helpers))
+    for b in list(facts.bodies.values()) + helpers:
+        if "::promoted[" in b.path:
+            continue
+        if not (b.path.startswith(("derive_family::", "<derive_family::")) or "_macro_internal::" in b.path):
+            continue
+        n += 1
+        for bb, c in b.calls():
+            if bb in b.live_blocks and (c.decl or c.name or "").split("::")[-1] in CASE_FOLDING:
+                bad.append((fn_short(b.path), (c.decl or c.name).split("::")[-1], c.span))
+    r.instance("exact-name-comparison", not bad,
+               "%s compares a column / field name through `%s`: two columns whose names differ only in case are taken for one another"
+               % (bad[0][0] if bad else "", bad[0][1] if bad else ""), bad[0][2] if bad else None)
+    r.instance("population", n >= 50, "only %d generated / helper bodies scanned" % n, None, nontrivial=False)
+    r.note("%d generated / _macro_internal bodies scanned" % n)
+
+
 def check(ctx):
     facts = ctx.facts("family")
     sers = {}
@@ -877,7 +908,7 @@ def check(ctx):
         sers = r1(ctx, facts)
     except AnchorLost as ex:
         ctx.rule("R1x", "anchors").fail("anchor-lost", str(ex))
-    for fn in ((lambda c, f: r2(c, f, sers)), (lambda c, f: r12(c, f, sers)), r3, r4, r5, r6, r7, r8, r9, r10, r11, r13, r14):
+    for fn in ((lambda c, f: r2(c, f, sers)), (lambda c, f: r12(c, f, sers)), r3, r4, r5, r6, r7, r8, r9, r10, r11, r13, r14, r15):
         try:
             fn(ctx, facts)
         except AnchorLost as ex:
